@@ -18,6 +18,10 @@ var (
 	values  = []string{"a", "b", "c", "x1", "me", "123", "{p}", "{z}", "*", ""}
 )
 
+// path segments carrying percent escapes (encoded slash / dot / space / percent, upper and lower hex, an escaped
+// plain letter): the engine matches the URL AS SENT, an escape never splits or merges segments
+var escVals = []string{"a%2Fb", "a%2fb", "x%2Ey", "my%20files", "100%25", "%61", "b%2F", "%2Fc", "a%2Fb%2Fc", "%2e%2e"}
+
 func genPattern(r *prng.R) string {
 	h := prng.Pick(r, hosts)
 	if r.Chance(5) { // parameter or wildcard inside the host
@@ -95,8 +99,14 @@ func instantiate(r *prng.R, p string, adversarial bool) string {
 			out = append(out, strings.Join(hs, "."))
 		case s == "*":
 			for j := r.Range(0, 2); j > 0; j-- {
-				out = append(out, prng.Pick(r, lits))
+				if r.Chance(15) {
+					out = append(out, prng.Pick(r, escVals))
+				} else {
+					out = append(out, prng.Pick(r, lits))
+				}
 			}
+		case strings.HasPrefix(s, "{") && r.Chance(20):
+			out = append(out, prng.Pick(r, escVals))
 		case strings.HasPrefix(s, "{"):
 			if adversarial {
 				out = append(out, prng.Pick(r, values))
@@ -143,6 +153,22 @@ func deriveURL(r *prng.R, pats []string) string {
 	case 5: // decoration the trim removes
 		if r.Chance(50) {
 			return prng.Pick(r, []string{"/", ".", ""}) + strings.Join(parts, "/") + prng.Pick(r, []string{"/", ".", "/.", ""})
+		}
+	case 7: // one path segment replaced by an escaped spelling / an escaped slash inside a segment
+		if len(parts) > 1 {
+			i := r.Range(1, len(parts)-1)
+			switch r.Intn(3) {
+			case 0:
+				parts[i] = prng.Pick(r, escVals)
+			case 1:
+				parts[i] = parts[i] + "%2F" + prng.Pick(r, lits)
+			default:
+				if i+1 < len(parts) { // two segments glued by an encoded slash
+					parts = append(parts[:i], append([]string{parts[i] + "%2F" + parts[i+1]}, parts[i+2:]...)...)
+				} else if parts[i] != "" {
+					parts[i] = "%" + fmt.Sprintf("%02X", parts[i][0]) + parts[i][1:]
+				}
+			}
 		}
 	case 6: // empty segment
 		if r.Chance(40) {
